@@ -233,3 +233,57 @@ class FilterCtx:
 
     def __getattr__(self, name):
         return getattr(self._ctx, name)
+
+
+class PrefixCtx:
+    """view of a Ctx that renames rules `<old>.x` to `<new>.x` (one property re-evaluating rules written for another,
+    because its own statement depends on them); optionally restricted to some rule suffixes"""
+
+    def __init__(self, ctx, old, new, allowed=None):
+        self._ctx, self._old, self._new, self._allowed = ctx, old + ".", new + ".", allowed
+
+    def _map(self, rule):
+        if rule.startswith(self._old):
+            rule = self._new + rule[len(self._old):]
+        if self._allowed is not None and not any(rule == self._new + a or rule.startswith(self._new + a + ".") for a in self._allowed):
+            return None
+        return rule
+
+    def rule(self, rule, desc):
+        r = self._map(rule)
+        if r:
+            self._ctx.rule(r, desc)
+
+    def ok(self, rule, *a, **k):
+        r = self._map(rule)
+        if r:
+            self._ctx.ok(r, *a, **k)
+
+    def violation(self, rule, key, *a, **k):
+        r = self._map(rule)
+        if r:
+            self._ctx.violation(r, key, *a, **k)
+
+    def unrecognised(self, rule, *a, **k):
+        r = self._map(rule)
+        if r:
+            self._ctx.unrecognised(r, *a, **k)
+
+    def count_nontrivial(self, rule, n):
+        r = self._map(rule)
+        if r:
+            self._ctx.count_nontrivial(r, n)
+
+    def floor(self, *a, **k):
+        pass
+
+    def assume(self, *a, **k):
+        pass
+
+    def __setattr__(self, name, value):
+        if name.startswith("_"):
+            object.__setattr__(self, name, value)
+        # settings made by the borrowed module (level, explanation, exhaustive) are ignored
+
+    def __getattr__(self, name):
+        return getattr(self._ctx, name)
